@@ -5,7 +5,7 @@ polymorphic in the number type (run at Rat by the driver, at ℝ by the theorems
 Supported subset of an expression (anything else raises and leaves a file that breaks the dependent theorems):
   names y_pred / y_true (vectors) . integer / dyadic constants . + - * / and unary minus (vector-vector,
   vector-scalar broadcasting, scalar-scalar) . np.mean np.sum np.square np.sqrt np.abs np.log .
-  np.linalg.norm(v, 2) (also through a local alias `norm = np.linalg.norm`) . cast(float, e)
+  np.linalg.norm(v, 2) (also through a local alias `norm = np.linalg.norm`) . np.ravel(v) . cast(float, e)
 """
 from __future__ import annotations
 
@@ -88,6 +88,10 @@ class Tr:
             if len(e.args) != 1 or e.keywords:
                 raise Unsupported("call " + ast.unparse(e))
             k, x = self.expr(e.args[0])
+            if f == "np.ravel":  # flattening: a Series/DataFrame is already a flat list here
+                if k != "V":
+                    raise Unsupported("ravel of a scalar")
+                return "V", x
             if f == "np.mean":
                 if k != "V":
                     raise Unsupported("mean of a scalar")
@@ -181,7 +185,49 @@ def check_routines(src: str) -> dict:
         if kw.get("as_deepcopy") != "True":
             raise Unsupported(f"fit.{name}: as_deepcopy default {kw.get('as_deepcopy')}")
         out[name] = kw.get("loss_fn", "?")
+    out["sets_best"] = sets_best(tree)
     return out
+
+
+SET_BEST_BODY = ("p_names = model.get_parameter_names()\nv_names = model.get_variable_names()\n"
+                 "model.update_parameters({k: v for k, v in parameters.items() if k in p_names})\n"
+                 "model.update_variables({k: v for k, v in parameters.items() if k in v_names})")
+
+
+def sets_best(tree: ast.Module) -> bool:
+    """does the success branch of all three fit routines start with `_set_best(model, parameters)` (and is `_set_best`
+    the assignment of the reported values through the parameter / variable names)?  none of them: False (pinned tree);
+    some but not all, or another `_set_best`: refuse"""
+    found = []
+    for name in ("steady_state", "time_course", "protocol_time_course"):
+        fn = next(n for n in tree.body if isinstance(n, ast.FunctionDef) and n.name == name)
+        m = fn.body[-1]
+        if not (isinstance(m, ast.Match) and ast.unparse(m.subject) == "minimizer(fn, p0, {} if bounds is None else bounds).value"):
+            raise Unsupported(f"fit.{name}: does not end with `match minimizer(fn, p0, ...).value`")
+        case = m.cases[0]
+        if ast.unparse(case.pattern) != "OptimisationState(parameters, residual)":
+            raise Unsupported(f"fit.{name}: first case is {ast.unparse(case.pattern)}")
+        body = [ast.unparse(x) for x in case.body]
+        ret = "return Result(Fit(model=model, best_pars=parameters, loss=residual))"
+        if body == [ret]:
+            found.append(False)
+        elif body == ["_set_best(model, parameters)", ret]:
+            found.append(True)
+        else:
+            raise Unsupported(f"fit.{name}: success branch is\n" + "\n".join(body))
+        if ast.unparse(m.cases[1].pattern) != "_ as e" or [ast.unparse(x) for x in m.cases[1].body] != ["return Result(e)"]:
+            raise Unsupported(f"fit.{name}: failure branch changed")
+    if not any(found):
+        return False
+    if not all(found):
+        raise Unsupported("_set_best is called by some fit routines only")
+    fn = next((n for n in tree.body if isinstance(n, ast.FunctionDef) and n.name == "_set_best"), None)
+    if fn is None or [a.arg for a in fn.args.args] != ["model", "parameters"]:
+        raise Unsupported("_set_best not found / signature")
+    body = [s for s in fn.body if not (isinstance(s, ast.Expr) and isinstance(s.value, ast.Constant))]
+    if "\n".join(ast.unparse(x) for x in body) != SET_BEST_BODY:
+        raise Unsupported("_set_best changed:\n" + "\n".join(ast.unparse(x) for x in body))
+    return True
 
 
 def default_box(src: str):
@@ -209,6 +255,81 @@ def default_box(src: str):
     raise Unsupported("no minimize(...) call in LocalScipyMinimizer.__call__")
 
 
+def update_order(src: str) -> list[str]:
+    """the first lines of the three residual functions, as blocks in source order: "y0" (`if (y0 := settings.y0) is not
+    None: model.update_variables(y0)`), "pars" (`for p in settings.p_names: model.update_parameter(p, updates[p])`), "vars"
+    (`for v in settings.v_names: model.update_variable(v, updates[v])`); loop-variable names are free; all three functions must
+    agree; any other statement before the simulation refuses"""
+    tree = ast.parse(src)
+    orders = []
+    for name in ("steady_state_residual", "time_course_residual", "protocol_time_course_residual"):
+        fn = next((n for n in tree.body if isinstance(n, ast.FunctionDef) and n.name == name), None)
+        if fn is None:
+            raise Unsupported(f"{name} not found")
+        body = [s for s in fn.body if not (isinstance(s, ast.Expr) and isinstance(s.value, ast.Constant))]
+        if ast.unparse(body[0]) != "model = settings.model":
+            raise Unsupported(f"{name}: does not start with `model = settings.model`")
+        order = []
+        for st in body[1:]:
+            if isinstance(st, ast.If) and not st.orelse and ast.unparse(st.test) == "(y0 := settings.y0) is not None" \
+                    and [ast.unparse(x) for x in st.body] == ["model.update_variables(y0)"]:
+                order.append("y0")
+            elif isinstance(st, ast.For) and not st.orelse and isinstance(st.target, ast.Name) and len(st.body) == 1:
+                v = st.target.id
+                it, b = ast.unparse(st.iter), ast.unparse(st.body[0])
+                if it == "settings.p_names" and b == f"model.update_parameter({v}, updates[{v}])":
+                    order.append("pars")
+                elif it == "settings.v_names" and b == f"model.update_variable({v}, updates[{v}])":
+                    order.append("vars")
+                else:
+                    raise Unsupported(f"{name}: loop `{ast.unparse(st)[:80]}`")
+            else:
+                break  # the simulation starts here
+        if sorted(order) != ["pars", "vars", "y0"]:
+            raise Unsupported(f"{name}: update blocks {order}")
+        orders.append(order)
+    if orders[0] != orders[1] or orders[0] != orders[2]:
+        raise Unsupported(f"the residual functions update the model in different orders: {orders}")
+    return orders[0]
+
+
+def global_box(src: str, lo, hi) -> bool:
+    """GlobalScipyMinimizer.__call__: `box = [bounds.get(name, (lo, hi)) for name in p0]` with the local minimiser's default
+    box, handed to differential_evolution / shgo / dual_annealing / direct -> True; the `bounds` dict handed on as it
+    is (pinned tree: those four methods raise) -> False; anything else refuses"""
+    tree = ast.parse(src)
+    cls = next((n for n in tree.body if isinstance(n, ast.ClassDef) and n.name == "GlobalScipyMinimizer"), None)
+    call = None if cls is None else next((n for n in cls.body if isinstance(n, ast.FunctionDef) and n.name == "__call__"), None)
+    if call is None:
+        raise Unsupported("GlobalScipyMinimizer.__call__ not found")
+    passed = {}
+    for node in ast.walk(call):
+        if isinstance(node, ast.Call) and ast.unparse(node.func) in ("differential_evolution", "shgo", "dual_annealing", "direct"):
+            if len(node.args) != 2 or node.keywords or ast.unparse(node.args[0]) != "res_fn":
+                raise Unsupported("global call " + ast.unparse(node))
+            passed[ast.unparse(node.func)] = ast.unparse(node.args[1])
+    if len(passed) != 4:
+        raise Unsupported(f"global methods found: {sorted(passed)}")
+    if set(passed.values()) == {"bounds"}:
+        return False
+    if len(set(passed.values())) != 1:
+        raise Unsupported(f"global methods get {passed}")
+    (local,) = set(passed.values())  # whatever the local list of boxes is called
+    for st in call.body:
+        if isinstance(st, ast.Assign) and len(st.targets) == 1 and ast.unparse(st.targets[0]) == local:
+            b = st.value
+            if (isinstance(b, ast.ListComp) and len(b.generators) == 1 and not b.generators[0].ifs
+                    and ast.unparse(b.generators[0].iter) == "p0" and isinstance(b.generators[0].target, ast.Name)
+                    and isinstance(b.elt, ast.Call) and ast.unparse(b.elt.func) == "bounds.get" and len(b.elt.args) == 2
+                    and ast.unparse(b.elt.args[0]) == b.generators[0].target.id):
+                glo, ghi = ast.literal_eval(b.elt.args[1])
+                if (Fraction(repr(float(glo))), Fraction(repr(float(ghi)))) != (lo, hi):
+                    raise Unsupported("the global minimiser's default box differs from the local one's")
+                return True
+            raise Unsupported(f"{local} = " + ast.unparse(b))
+    raise Unsupported(f"no `{local} = ...` in GlobalScipyMinimizer.__call__")
+
+
 def render(repo: Path) -> str:
     losses_src = (repo / "src/mxlpy/fit/losses.py").read_text()
     tree = ast.parse(losses_src)
@@ -222,6 +343,8 @@ def render(repo: Path) -> str:
     guard = check_settings((repo / "src/mxlpy/fit/abstract.py").read_text())
     defaults = check_routines((repo / "src/mxlpy/fit/routines.py").read_text())
     lo, hi = default_box((repo / "src/mxlpy/minimizers/_scipy.py").read_text())
+    gbox = global_box((repo / "src/mxlpy/minimizers/_scipy.py").read_text(), lo, hi)
+    uorder = update_order((repo / "src/mxlpy/fit/routines.py").read_text())
     shipped = ", ".join(f'"{n}"' for n in sorted(names))
     rat_ok = [n for n in names if set(needs[n]) <= {"HasAbs"}]
     rat_cases = "\n".join(f'  | "{n}" => some ({n} d p)' for n in sorted(rat_ok))
@@ -243,8 +366,14 @@ def render(repo: Path) -> str:
         "def fitCopiesByDefault : Bool := true\n"
         f"/-- default `loss_fn` of steady_state / time_course / protocol_time_course -/\n"
         f"def defaultLoss : List String := [{', '.join(chr(34) + defaults[k] + chr(34) for k in ('steady_state', 'time_course', 'protocol_time_course'))}]\n\n"
+        "/-- the success branch of the three fit routines assigns the reported values to the returned model -/\n"
+        f"def fitSetsBest : Bool := {'true' if defaults['sets_best'] else 'false'}\n\n"
         "/-- the box `LocalScipyMinimizer` applies to a parameter without explicit bounds -/\n"
         f"def defaultBox : Rat × Rat := (({lo.numerator} : Rat) / {lo.denominator}, ({hi.numerator} : Rat) / {hi.denominator})\n\n"
+        "/-- the order in which every residual function writes into the model before it simulates -/\n"
+        f"def updateOrder : List String := [{', '.join(chr(34) + x + chr(34) for x in uorder)}]\n\n"
+        "/-- GlobalScipyMinimizer hands scipy one box per entry of p0 (the caller's, or the default box) -/\n"
+        f"def globalUsesBox : Bool := {'true' if gbox else 'false'}\n\n"
         "/-- the losses that need no sqrt/log, evaluated at Rat by the driver -/\n"
         "def evalRat (name : String) (d p : List Rat) : Option Rat :=\n  match name with\n"
         + rat_cases + "\n  | _ => none\n\n"
@@ -271,6 +400,9 @@ def generate(repo: Path, outdir: Path) -> None:
                               "def shipped : List String := []\n"
                               "def defaultBox : Rat × Rat := (0, 0)\n"
                               "def scaleGuard : Bool := false\n"
+                              "def fitSetsBest : Bool := false\n"
+                              "def globalUsesBox : Bool := false\n"
+                              "def updateOrder : List String := []\n"
                               "def settingsLoss {α : Type} [Sub α] [Div α] [LT α] [DecidableLT α] [NatCast α]\n"
                               "    (lossFn : List α → List α → α) (standardScale : Bool) (mean scale : α) (data prediction : List α) : α :=\n"
                               "  scaledLoss false lossFn standardScale mean scale data prediction\n"
